@@ -90,3 +90,7 @@ func (v *VerifDNS) AddHostInfo(peer *cert.CachedCertificate, vpnAddrs []netip.Ad
 }
 
 func (v *VerifDNS) Handle(w dns.ResponseWriter, r *dns.Msg) { v.ds.handleDnsRequest(w, r) }
+
+// ParseQuery runs dnsServer.parseQuery on a message as given (all of its questions), the way the
+// package's own tests drive it.
+func (v *VerifDNS) ParseQuery(m *dns.Msg, w dns.ResponseWriter) { v.ds.parseQuery(m, w) }
